@@ -29,7 +29,8 @@
 // Mis-issuance: set Spec.Mutate (edits the x509 template right before signing; everything the
 // standard library can express: key usages, basic constraints, ext key usages, key ids, names,
 // signature algorithm), Spec.NoIA / Spec.RawIA (subject ISD-AS missing / arbitrary text),
-// Spec.SignKey (sign with a key that is not the issuer's), Spec.IssuerName (claim another issuer).
+// Spec.SignKey (sign with a key that is not the issuer's), Spec.IssuerName (claim another issuer),
+// Spec.NoAuthorityKeyID (no authority key identifier extension).
 //
 // TRCs:
 //
@@ -155,6 +156,9 @@ type Spec struct {
 	// the Issuer's.
 	IssuerName  *pkix.Name
 	IssuerKeyID []byte
+	// NoAuthorityKeyID issues the certificate without authority key identifier extension (the standard
+	// library otherwise always copies the issuer's subject key id).
+	NoAuthorityKeyID bool
 }
 
 // Cert is an issued certificate with its private key.
@@ -273,7 +277,22 @@ func Issue(s Spec) (*Cert, error) {
 		tmpl.AuthorityKeyId = s.IssuerKeyID
 	}
 	if s.SignKey != nil {
+		// x509.CreateCertificate insists that the signing key matches the parent's public key: hand it a copy of
+		// the parent that carries the forger's public key (names and key ids stay those of the claimed issuer).
 		signKey = s.SignKey
+		if parent != &tmpl {
+			pp := *parent
+			pp.PublicKey = &signKey.PublicKey
+			parent = &pp
+		}
+	}
+	if s.NoAuthorityKeyID {
+		tmpl.AuthorityKeyId = nil
+		if parent != &tmpl {
+			pp := *parent
+			pp.SubjectKeyId = nil
+			parent = &pp
+		}
 	}
 	if s.Mutate != nil {
 		s.Mutate(&tmpl)
